@@ -171,7 +171,7 @@ func programs(thorough bool) []Spec {
 			if conflict(z, y) {
 				continue
 			}
-			ps = append(ps, Spec{Holders: []map[string]string{x, z, y}, Bound: b3, HoldUntil: map[int]int{0: 2}})
+			ps = append(ps, Spec{Holders: []map[string]string{x, z, y}, Bound: 2, HoldUntil: map[int]int{0: 2}})
 		}
 	}
 	return ps
